@@ -205,6 +205,33 @@ theorem C11_unconfirmed_inert (store : Store) (pol : Policy) (now : Int) :
   rw [C11_dry_gate]
   simp [execHttp]
 
+/-- **C11_max_over_whole_file.** The `MAX(time)` that decides a file's fate is one aggregate over the
+whole file (all row groups) in the current source — the model's `maxTime f.times`. -/
+theorem C11_max_over_whole_file : Arc.Generated.C11.maxTimeScansWholeFile = true := by decide
+
+/-- **C11_exec_records_ignored.** The current source never consults earlier execution records when it
+runs a policy … -/
+theorem C11_exec_records_ignored : Arc.Generated.C11.runIgnoresExecutionRecords = true := by decide
+
+/-- **C11_run_after_crash.** … hence a later run's outcome does not depend on leftover execution rows:
+whatever rows earlier (completed, failed or KILLED) runs left behind, the run removes the same files
+and reports the same; in particular after a crash (any subset of files already removed, row left
+`running`) the next run still leaves no covered file with only expired rows (`C11_complete`) and
+removes no unexpired row (`C11_safe`). -/
+theorem C11_run_after_crash (store : Store) (e1 e2 : List (Nat × ExecStatus)) (pid : Nat)
+    (pol : Policy) (now : Int) :
+    ((Sys.exec srcCfg ⟨store, e1⟩ pid pol now).1.store = (Sys.exec srcCfg ⟨store, e2⟩ pid pol now).1.store ∧
+     (Sys.exec srcCfg ⟨store, e1⟩ pid pol now).2 = (Sys.exec srcCfg ⟨store, e2⟩ pid pol now).2) ∧
+    ∀ (s : Sys) (gone : PFile → Bool) (f : PFile),
+      let s' := (Sys.exec srcCfg (s.crash pid gone) pid pol now).1
+      (f ∈ s'.store → covered srcCfg (s.crash pid gone).store pol f = true → isParquet f.path = true →
+          ¬ AllOld (cutoffNs now pol.ret pol.buf) f) ∧
+      (f ∈ (s.crash pid gone).store → f ∉ s'.store →
+          ∀ t, some t ∈ f.times → t * 1000 < cutoffNs now pol.ret pol.buf) := by
+  refine ⟨⟨rfl, rfl⟩, ?_⟩
+  intro s gone f
+  exact ⟨fun h hc hp => C11_complete _ pol now f h hc hp, fun hin hg => C11_safe _ pol now f hin hg⟩
+
 theorem filter_partition_length {α : Type} (p : α → Bool) (l : List α) :
     (l.filter p).length + (l.filter (fun x => !p x)).length = l.length := by
   induction l with
